@@ -247,6 +247,24 @@ pub fn replay_game(v: &Value, mk: fn() -> Box<dyn Obs>) -> Result<Option<Fail>, 
         let mut st2 = Stats::default();
         let _ = drive::walk(&start, Source::Explicit(&actions), 0, &opts, &mut *obs, &mut st2);
     }
+    if v["fork"].as_u64() == Some(drive::VARIANT_TWIN as u64) && branch.len() >= 3 {
+        // expand the transposed twin first, then the failing state, back to back
+        let n = branch.len();
+        let (o1, o2, x) = (branch[n - 3], branch[n - 2], branch[n - 1]);
+        for a in branch[..n - 3].iter() {
+            eng = guard(|| eng.take_action(a)).map_err(|e| format!("panic: {}", e))?;
+            mo.apply(to_maction(a))?;
+        }
+        let twin = guard(|| eng.take_action(&o2).take_action(&o1)).map_err(|e| format!("panic: {}", e))?;
+        let me = guard(|| eng.take_action(&o1).take_action(&o2)).map_err(|e| format!("panic: {}", e))?;
+        let (_ct, cm) = guard(|| (twin.take_action(&x), me.take_action(&x))).map_err(|e| format!("panic: {}", e))?;
+        let mut mm = mo.clone();
+        mm.apply(to_maction(&o1))?;
+        mm.apply(to_maction(&o2))?;
+        mm.apply(to_maction(&x))?;
+        let v1 = drive::View::new(&cm, &mm, true);
+        return Ok(obs.on_state(&v1, &mut st).err());
+    }
     for a in branch.iter() {
         let v0 = drive::View::new(&eng, &mo, true);
         let vanr = v0.vanr().clone().map_err(|e| format!("panic listing actions: {}", e))?;
